@@ -68,7 +68,8 @@ fn one_run(program_seed: u64, schedule_seed: u64, mix: &str) -> (Vec<serde_json:
 
     let mut stuck = bus.run(&mut srng, STEP_BOUND) == RunOutcome::StepBound;
     let apps_unfinished = bus.apps_running();
-    bus.log.push(json!({"t": "quiescent", "unfinished": apps_unfinished}));
+    let panics_now: Vec<String> = bus.exec.panicked().iter().map(|p| format!("{}: {}", p.1, p.2)).collect();
+    bus.log.push(json!({"t": "quiescent", "unfinished": apps_unfinished, "panics": panics_now}));
 
     // clean shutdown of every client (explicit or by dropping the last handle), then idle shutdown
     for i in 0..bus.clients.len() {
